@@ -193,6 +193,12 @@ EXPLORE.update({
            "evidence is reported as unsatisfiable. The MaxSAT mode holds (one defect repaired); the hidden --use-semiring mode "
            "has five listed known findings.",
 })
+EXPLORE.update({
+    "C23": "Run-time contract on the k-best evaluator (default options and two coarser convergence thresholds) and on the "
+           "explain task's KBestFormula evaluation for seeded evidence-free programs against exhaustive possible-world "
+           "enumeration: a returned value equals the exact probability, a returned interval contains it and is tight on "
+           "completion, the probabilities of the proofs listed per query sum to its exact probability.",
+})
 FUNCTION_LEVEL = ("C11", "C13", "C14", "C18", "C17")
 FN_BOUNDED_TECH = ("run-time contract (pre/post-condition against an independent reference) on the real functions over a "
                    "bounded input family; the deductive contracts planned for these functions were not built, so nothing "
